@@ -36,4 +36,38 @@ PROPS = {
         "quick": {"procs": 2, "checks": 15000, "timeout_s": 300},
         "thorough": {"procs": 16, "checks": 150000, "timeout_s": 1800},
     },
+    "C14": {
+        "test": "TestC14", "level": "exploration", "exhaustive_claim": True,
+        "technique": "differential testing against an independent reference encoder/decoder: exhaustive small buffers for the amount codec, rapid-generated structured values, arbitrary and mutated bytes with a re-encode fixed-point oracle",
+        "level_text": "The amount decoder is run on every buffer up to 2 (quick) / 3 (thorough) bytes; generated token / role-list / metadata values "
+                      "(absent, empty and large fields, varint boundaries, huge and negative amounts) are encoded and compared byte for byte with a "
+                      "reference encoder written from esdt.proto, sizes and round trips are checked, and arbitrary / mutated byte strings are decoded "
+                      "under a no-panic and re-encode fixed-point oracle. Complete for the enumerated buffers, sampled elsewhere.",
+        "level_note": "Trusted: the reference codec in harness/wire.go (written from data/esdt/proto/esdt.proto and the protobuf wire format); the production marshalizer convention obj.Reset();obj.Unmarshal.",
+        "rule": "enumerated: amount decoder on every buffer of length <= 2 (quick) / <= 3 (thorough); amount encoder on boundary values into clean and "
+                "dirty buffers; generated (rapid): ESDigitalToken/MetaData/ESDTRoles values, 0..64 arbitrary bytes, one mutation (bit flip, cut, "
+                "append, insert) of a valid encoding. Non-trivial = a value with at least one non-default field, or a byte string a decoder "
+                "accepts; distinct by the rendered value / the bytes (enumerated buffers are distinct by construction and sharded by process).",
+        "assumptions": ["ENC"],
+        "quick": {"procs": 4, "checks": 12000, "timeout_s": 300},
+        "thorough": {"procs": 16, "checks": 250000, "timeout_s": 2400},
+    },
+    "C12": {
+        "test": "TestC12", "level": "exploration", "exhaustive_claim": True,
+        "technique": "exhaustive enumeration of short strings + rapid-generated round trips and hostile transfer-parser inputs against an independent reference parser / encoder",
+        "level_text": "Every string up to 6 (quick) / 7 (thorough) characters over {letter,'@',hex digits in both cases,non-hex} goes through the call-args, "
+                      "deploy-args and storage-updates parsers (no panic, result xor error, agreement with an independent split-and-hex reference on every "
+                      "well-formed input); generated function/argument lists, builder programs, deploy data and storage-update lists are round-tripped; the "
+                      "ESDT-transfer parser is driven with structured hostile inputs (64-bit wrap residues of 3n+c, truncated and value-less payloads). "
+                      "Complete for the enumerated strings, sampled elsewhere.",
+        "level_note": "Trusted: the reference tx-data codec TxEncode/TxDecode in harness/wire.go; domain restricted as the statement says (function names non-empty without '@'; storage lists non-empty with a non-empty first offset).",
+        "rule": "enumerated: all strings of length <= 6 (quick) / <= 7 (thorough) over a 6-character alphabet through three parsers; generated (rapid): "
+                "random strings up to 40 characters, (function, 0..6 args) lists with empty / zero / wrap-residue arguments, builder programs, deploy "
+                "data, storage lists, ESDT-transfer-parser inputs. Non-trivial = an input at least one parser accepts, or one that contains a separator "
+                "(and is therefore rejected by hex/arity validation rather than trivially), or a transfer-parser input that is accepted (its count "
+                "passed the length test); distinct by the string / rendered case.",
+        "assumptions": ["ENC"],
+        "quick": {"procs": 4, "checks": 15000, "timeout_s": 300, "env": {"VERIF_C12_MAXLEN": 6}},
+        "thorough": {"procs": 16, "checks": 300000, "timeout_s": 2400, "env": {"VERIF_C12_MAXLEN": 7}},
+    },
 }
